@@ -53,9 +53,9 @@ Print Assumptions C19_resend.
 Theorem C19_mismatch_fails_and_stops : forall c s,
   (forall k h id pid pqs pks, nth_error (queue s) k = Some (TAfterPrepare h (RPrepared id)) -> fin_exc s = None ->
      fut_ps c = Some (pid, pqs, pks) -> pid <> id ->
-     step c s (Run k) = (set_exc (set_queue s (remove_nth k (queue s))) XIdMismatch, [])) /\
+     step c s (Run k) = (fail_with (set_queue s (remove_nth k (queue s))) XIdMismatch, [])) /\
   (forall i h id tag pid qs ks, open_query s i h -> stmt_for c id = Some (pid, qs, ks) -> ks_mismatch c s ks = true ->
-     step c s (Resp i (RUnprepared id tag)) = (set_exc (done_i s i) XKsMismatch, [])).
+     step c s (Resp i (RUnprepared id tag)) = (fail_with (done_i s i) XKsMismatch, [])).
 Proof.
   intros c s. split.
   - intros k h id pid pqs pks. apply run_after_prepare_mismatch.
@@ -63,12 +63,18 @@ Proof.
 Qed.
 Print Assumptions C19_mismatch_fails_and_stops.
 
+(* `fail_with s x` (first outcome wins, cluster.py _set_final_exception): for a request without outcome it stores x *)
+Theorem C19_failure_is_the_outcome : forall s x, fin_res s = None -> fin_exc s = None ->
+  fail_with s x = set_exc s x /\ fin_exc (fail_with s x) = Some x.
+Proof. intros s x R E. rewrite (fail_with_fresh s x R E). split; reflexivity. Qed.
+Print Assumptions C19_failure_is_the_outcome.
+
 (* an error answer to the PREPARE (server error, unexpected message) fails the request with that error, nothing is sent;
    and once the request has failed, the after-prepare task sends nothing either *)
 Theorem C19_prepare_error_fails_and_stops : forall c s k h r,
   nth_error (queue s) k = Some (TAfterPrepare h r) ->
   (forall x, fin_exc s = None -> prepare_error r = Some x ->
-     step c s (Run k) = (set_exc (set_queue s (remove_nth k (queue s))) x, [])) /\
+     step c s (Run k) = (fail_with (set_queue s (remove_nth k (queue s))) x, [])) /\
   (fin_exc s <> None -> step c s (Run k) = (set_queue s (remove_nth k (queue s)), [])).
 Proof.
   intros c s k h r N. split.
